@@ -349,8 +349,8 @@ func c19Conc(w *fw.W, idx int, r *fw.Rand) {
 	var wg sync.WaitGroup
 	var mu sync.Mutex
 	type diff struct {
-		g, i   int
-		got    string
+		g, i int
+		got  string
 	}
 	var diffs []diff
 	start := make(chan struct{})
@@ -384,8 +384,9 @@ func c19Conc(w *fw.W, idx int, r *fw.Rand) {
 
 func init() {
 	fw.Register(&fw.Prop{
-		ID:   "C19",
-		Race: true,
+		ID:      "C19",
+		Race:    true,
+		HangCPU: 600, // batches of up to 16 goroutines under the race detector
 		NCases: func(tier string) int {
 			a, b := c19Dims(tier)
 			return a + b
